@@ -99,13 +99,207 @@ pub fn history_pairs<T: Sync>(name: &str, pool: &[T], op: &(dyn Fn(&T) -> String
             let _ = crate::engine::guarded(|| op(&pool[w]));
             let got = crate::engine::guarded(|| op(&pool[v])).unwrap_or_else(|p| format!("panic: {p}"));
             if got != *want {
+                // which history is needed? this worker has executed w, v0, w, v1, ..., w, v: find the
+                // shortest suffix of that sequence that gives the same wrong result on a fresh thread
+                let executed: Vec<usize> = (0..=v).flat_map(|k| [w, k]).collect();
+                let on_fresh_thread = |seq: &[usize]| -> String {
+                    std::thread::scope(|s| {
+                        s.spawn(|| {
+                            let mut last = String::new();
+                            for &i in seq {
+                                last = crate::engine::guarded(|| op(&pool[i])).unwrap_or_else(|p| format!("panic: {p}"));
+                            }
+                            last
+                        })
+                        .join()
+                        .unwrap()
+                    })
+                };
+                let mut seq: Vec<usize> = executed.clone();
+                for len in 2..=executed.len().min(14) {
+                    let cand = &executed[executed.len() - len..];
+                    if on_fresh_thread(cand) != *want {
+                        seq = cand.to_vec();
+                        break;
+                    }
+                }
+                let case = if seq.len() == 2 {
+                    json!({"history_pair": name, "before": show(&pool[seq[0]]), "then": show(&pool[seq[1]])})
+                } else {
+                    json!({"history_pair": name, "sequence": seq.iter().map(|&i| show(&pool[i])).collect::<Vec<_>>()})
+                };
                 local.fail(
                     &format!("history-changes-output:{name}"),
-                    json!({"history_pair": name, "before": show(&pool[w]), "then": show(&pool[v])}),
-                    format!("{name}: after the same operation on {} the result for {} is {}, alone it is {}", show(&pool[w]), show(&pool[v]), got.chars().take(300).collect::<String>(), want.chars().take(300).collect::<String>()),
+                    case,
+                    format!("{name}: after the same operation on {} the result for {} is {}, alone it is {}", seq[..seq.len() - 1].iter().map(|&i| show(&pool[i]).to_string()).collect::<Vec<_>>().join(", then "), show(&pool[v]), got.chars().take(300).collect::<String>(), want.chars().take(300).collect::<String>()),
                 );
             }
         }
         local.count(&format!("history-pairs:{name}"));
     })
+}
+
+
+/// A writer that fails at its k-th call (for observations that include failing encodes).
+pub struct FailAt {
+    pub calls: usize,
+    pub k: usize,
+    pub out: Vec<u8>,
+}
+impl std::io::Write for FailAt {
+    fn write(&mut self, buf: &[u8]) -> std::io::Result<usize> {
+        self.calls += 1;
+        if self.calls >= self.k {
+            return Err(std::io::Error::new(std::io::ErrorKind::BrokenPipe, "peer hung up"));
+        }
+        self.out.extend_from_slice(buf);
+        Ok(buf.len())
+    }
+    fn flush(&mut self) -> std::io::Result<()> {
+        Ok(())
+    }
+}
+
+/// History independence under accumulation: after `reps` repetitions of `op` on w (in particular
+/// operations that FAIL part-way: a counter that is incremented on entry and not decremented on
+/// the error path, a buffer that grows, a pool that drains) the result for v is the result for v
+/// alone — every w of `before` x every v of `then`.
+pub fn history_after_repeats<T: Sync>(name: &str, before: &[T], then: &[T], reps: usize, op: &(dyn Fn(&T) -> String + Sync), show: &(dyn Fn(&T) -> J + Sync)) -> Local {
+    let baseline: Vec<String> = then.iter().map(|x| std::thread::scope(|s| s.spawn(|| crate::engine::guarded(|| op(x)).unwrap_or_else(|p| format!("panic: {p}"))).join().unwrap())).collect();
+    crate::engine::par_for(before.len(), |w, local| {
+        // a thread of its own: the accumulated state must not leak into the other checks
+        let fails: Vec<(usize, String)> = std::thread::scope(|s| {
+            s.spawn(|| {
+                for _ in 0..reps {
+                    let _ = crate::engine::guarded(|| op(&before[w]));
+                }
+                let mut out = vec![];
+                for (v, want) in baseline.iter().enumerate() {
+                    let got = crate::engine::guarded(|| op(&then[v])).unwrap_or_else(|p| format!("panic: {p}"));
+                    if got != *want {
+                        out.push((v, got));
+                    }
+                }
+                out
+            })
+            .join()
+            .unwrap()
+        });
+        local.evals += (reps + then.len()) as u64;
+        local.count(&format!("history-repeats:{name}"));
+        for (v, got) in fails {
+            local.fail(
+                &format!("history-changes-output:{name}:after-repeats"),
+                json!({"history_repeats": name, "reps": reps, "before": show(&before[w]), "then": show(&then[v])}),
+                format!("{name}: after {reps} repetitions of the same operation on {} the result for {} is {}, alone it is {}", show(&before[w]), show(&then[v]), got.chars().take(300).collect::<String>(), baseline[v].chars().take(300).collect::<String>()),
+            );
+        }
+    })
+}
+
+/// replay of a `history_repeats` case
+pub fn replay_history_repeats<T: Sync>(case: &J, parse: &dyn Fn(&J) -> T, op: &(dyn Fn(&T) -> String + Sync), name: &str) -> Verdict {
+    let (w, v) = (parse(&case["before"]), parse(&case["then"]));
+    let reps = case["reps"].as_u64().unwrap_or(300) as usize;
+    let alone = std::thread::scope(|s| s.spawn(|| op(&v)).join().unwrap());
+    let after = std::thread::scope(|s| {
+        s.spawn(|| {
+            for _ in 0..reps {
+                let _ = crate::engine::guarded(|| op(&w));
+            }
+            op(&v)
+        })
+        .join()
+        .unwrap()
+    });
+    if alone == after {
+        Ok(())
+    } else {
+        Err((format!("history-changes-output:{name}:after-repeats"), format!("alone {}, after {}", alone.chars().take(200).collect::<String>(), after.chars().take(200).collect::<String>())))
+    }
+}
+
+
+/// A writer that takes at most `limit` bytes per call and reports Interrupted on every
+/// `interrupt_every`-th call (0 = never).
+pub struct LimitedWriter {
+    pub out: Vec<u8>,
+    pub limit: usize,
+    pub interrupt_every: usize,
+    calls: usize,
+    just_interrupted: bool,
+}
+impl LimitedWriter {
+    pub fn new(limit: usize, interrupt_every: usize) -> Self {
+        LimitedWriter { out: vec![], limit, interrupt_every, calls: 0, just_interrupted: false }
+    }
+}
+impl std::io::Write for LimitedWriter {
+    fn write(&mut self, buf: &[u8]) -> std::io::Result<usize> {
+        self.calls += 1;
+        if self.interrupt_every > 0 && self.calls % self.interrupt_every == 0 && !self.just_interrupted {
+            self.just_interrupted = true;
+            return Err(std::io::Error::new(std::io::ErrorKind::Interrupted, "EINTR"));
+        }
+        self.just_interrupted = false;
+        let n = buf.len().min(self.limit);
+        self.out.extend_from_slice(&buf[..n]);
+        Ok(n)
+    }
+    fn flush(&mut self) -> std::io::Result<()> {
+        Ok(())
+    }
+}
+
+/// The Zinc text of a value, obtained through `to_zinc_string` AND through `ToZinc::to_zinc` into
+/// writers that take 1 / 3 bytes per call or report Interrupted on every other call: the text a
+/// caller's writer receives is the text. Err = (stage, detail).
+pub fn zinc_text_all_writers(lv: &libhaystack::val::Value) -> Result<String, (String, String)> {
+    use libhaystack::encoding::zinc::encode::{to_zinc_string, ToZinc};
+    let text = match crate::engine::guarded(|| to_zinc_string(lv)) {
+        Err(p) => return Err(("encode-panic".into(), p)),
+        Ok(Err(e)) => return Err(("encode-error".into(), e.to_string())),
+        Ok(Ok(t)) => t,
+    };
+    for (limit, every) in [(1usize, 0usize), (3, 0), (usize::MAX, 2)] {
+        let mut w = LimitedWriter::new(limit, every);
+        match crate::engine::guarded(|| lv.to_zinc(&mut w).map_err(|e| e.to_string())) {
+            Err(p) => return Err(("encode-panic:writer".into(), p)),
+            Ok(Err(e)) => return Err(("encode-error:writer".into(), format!("a writer taking {limit} bytes per call (Interrupted every {every}): {e}"))),
+            Ok(Ok(())) => {
+                if w.out != text.as_bytes() {
+                    return Err(("encode-writer-receives-other-text".into(), format!("a writer taking {limit} bytes per call (Interrupted every {every}) received {:?}, to_zinc_string gives {text:?}", String::from_utf8_lossy(&w.out))));
+                }
+            }
+        }
+    }
+    Ok(text)
+}
+
+
+/// replay of a `history_pair` case (a pair, or a longer `sequence`): the last item's result after
+/// the others, on a fresh thread, against its result alone
+pub fn replay_history_pair<T: Sync>(case: &J, parse: &dyn Fn(&J) -> T, op: &(dyn Fn(&T) -> String + Sync), name: &str) -> Verdict {
+    let items: Vec<T> = match case["sequence"].as_array() {
+        Some(a) => a.iter().map(parse).collect(),
+        None => vec![parse(&case["before"]), parse(&case["then"])],
+    };
+    let last = items.last().expect("non-empty");
+    let alone = std::thread::scope(|s| s.spawn(|| crate::engine::guarded(|| op(last)).unwrap_or_else(|p| format!("panic: {p}"))).join().unwrap());
+    let after = std::thread::scope(|s| {
+        s.spawn(|| {
+            let mut r = String::new();
+            for x in &items {
+                r = crate::engine::guarded(|| op(x)).unwrap_or_else(|p| format!("panic: {p}"));
+            }
+            r
+        })
+        .join()
+        .unwrap()
+    });
+    if alone == after {
+        Ok(())
+    } else {
+        Err((format!("history-changes-output:{name}"), format!("alone {}, after {}", alone.chars().take(200).collect::<String>(), after.chars().take(200).collect::<String>())))
+    }
 }
